@@ -709,3 +709,47 @@ func hasDefault(p *Program, pos token.Pos) bool {
 	}
 	return false
 }
+
+// ruleEqualSameKind (K4): orb.Equal is structural — in the arm for kind K the
+// second operand handed to K's Equal method must be the second argument
+// asserted to K (so that two geometries of different kinds are never equal).
+func ruleEqualSameKind(c *Ctx) {
+	p := c.P
+	c.R.Rule("K4: in orb.Equal, the arm for kind K compares g1.(K) with g2.(K): the argument of K.Equal is a type assertion of the second parameter to the same kind")
+	fn := p.funcByShortKey("orb.Equal")
+	if fn == nil || len(fn.Params) != 2 {
+		c.R.Unknown("K4-equal-same-kind", "orb.Equal", "", "orb.Equal not found")
+		return
+	}
+	g2 := fn.Params[1]
+	n := 0
+	for _, b := range fn.Blocks {
+		for _, in := range b.Instrs {
+			call, ok := in.(*ssa.Call)
+			if !ok {
+				continue
+			}
+			callee := call.Call.StaticCallee()
+			if callee == nil || callee.Name() != "Equal" || callee.Signature.Recv() == nil {
+				continue
+			}
+			k := p.KindOf(callee.Signature.Recv().Type())
+			if k == "" || len(call.Call.Args) != 2 {
+				continue
+			}
+			n++
+			cons := "orb.Equal#arm(" + k + ")"
+			arg := call.Call.Args[1]
+			if ex, ok := arg.(*ssa.Extract); ok {
+				arg = ex.Tuple
+			}
+			ta, ok := arg.(*ssa.TypeAssert)
+			if ok && ta.X == g2 && p.KindOf(ta.AssertedType) == k {
+				c.R.OK("K4-equal-same-kind", cons, p.InstrPos(call), "compares with g2.("+k+")")
+			} else {
+				c.R.Bad("K4-equal-same-kind", cons, p.InstrPos(call), "the "+k+" arm does not compare with the second argument asserted to "+k+": geometries of different kinds can compare equal (and Equal stops being symmetric)")
+			}
+		}
+	}
+	c.R.Floor("K4-equal-same-kind", n, 9)
+}
